@@ -1952,7 +1952,8 @@ LinkLayerSlaveConnection_HandleMessage(LinkLayerSlaveConnection self, uint8_t fc
         DEBUG_PRINT("[SLAVE %i] PLL - link layer service not functioning/not implemented in secondary station\n",
                     self->address);
 
-        if (primaryState == PLL_EXECUTE_SERVICE_SEND_CONFIRM)
+        /* a negative answer ends the service; it is an answer, the link is not broken */
+        if ((primaryState == PLL_EXECUTE_SERVICE_SEND_CONFIRM) || (primaryState == PLL_EXECUTE_SERVICE_REQUEST_RESPOND))
         {
             newState = PLL_LINK_LAYERS_AVAILABLE;
 
